@@ -191,11 +191,12 @@ package database
 //@   ghost var wl bool = false
 //@   at call (*RWMutex).Lock ghost wl = true
 //@   at optional call (*RWMutex).Unlock ghost wl = false
-// the feed is closed exactly when this subscription was found in the list and taken out of it -
+// the entry taken out of the list is this very subscription (not another one that shares its
+// query), and the feed is closed exactly when it was found and taken out -
 // hence at most once over any number of Cancel calls (closing a closed channel panics)
 //@   ghost var removed int = 0
 //@   ghost var closed int = 0
-//@   at store subscriptions assert wl && removed == 0
+//@   at store subscriptions assert wl && removed == 0 && sub == s
 //@   at store subscriptions ghost removed = removed + 1
 //@   at close assert chan == s.Feed && wl && removed == 1 && closed == 0
 //@   at close ghost closed = closed + 1
